@@ -68,14 +68,19 @@ def run(tier, seed, t0):
         flt = (lambda t: not needs_std(t)) if cfg.startswith('nostd') else (lambda t: True)
         # (1) size_of vs mem_zst
         rc, out = sh([exe, 'describe'])
+        described = 0
         for line in out.split('\n'):
             f = line.split('\t')
             if len(f) < 4:
                 continue
             tid = int(f[0])
+            described += 1
             stats['evaluations'] += 1
             if (f[2] == '1') != mem_zst(tmap[tid]):
                 disagreements.append({'what': 'size_of::<%s>() == 0 is %s but the model says mem_zst = %s' % (f[3], f[2], mem_zst(tmap[tid]))})
+        want = len([1 for t in tmap.values() if flt(t)])
+        if rc != 0 or described < want:
+            disagreements.append({'what': '`harness describe` (rc %s) listed %d types, the catalogue has %d in this configuration: size_of was not compared for all of them [%s]' % (rc, described, want, cfg)})
         drv = run_cases(driver, [case_line(tid, 'zst', tid, sexp(t)) for tid, t in tmap.items()])
         for tid, t in tmap.items():
             if drv.get(str(tid)) != ('1' if mem_zst(t) else '0'):
